@@ -6,6 +6,7 @@ import (
 	"strings"
 
 	"github.com/osteele/liquid"
+	yaml "gopkg.in/yaml.v2"
 
 	"verif/harness/core"
 	"verif/harness/gen"
@@ -170,7 +171,13 @@ func runC08(c *core.Ctx) {
 		if i%4 == 3 {
 			eng, mod, key = strict, ms, "lookup-strict"
 		}
-		if modelCompare(c, eng, mod, prog, env, nil, gen.DefaultStyle, key, "a variable/property/index lookup chain differs from the statement (or strict mode does not report exactly the nil final values)") {
+		var bind map[string]any
+		if i%3 == 1 {
+			// the same chain through Drops, pointers and typed containers at any depth of the bindings
+			bind = gen.RealiseEnv(env, c.Rand(i, 88), gen.Rep{Drops: true, Pointers: true, Typed: true})
+			key += "-representations"
+		}
+		if modelCompare(c, eng, mod, prog, env, bind, gen.DefaultStyle, key, "a variable/property/index lookup chain differs from the statement (or strict mode does not report exactly the nil final values)") {
 			c.Obs("lookup_cases", 1)
 			c.Distinct("lookup", src, env.String())
 			if i%9001 == 1 {
@@ -256,6 +263,26 @@ func runC08(c *core.Ctx) {
 				expectOut(c, e, "{{ 'x' | append: "+q+l+q+" | size }}|{% if "+q+l+q+" == s %}same{% else %}different{% endif %}", map[string]any{"s": l}, fmt.Sprintf("%d|same", 1+ref.RuneLen(l)), "literal-string-spelling-arg", what, nil)
 				c.Distinct("strlit", q+l)
 				c.Obs("literal_spelling_cases", 1)
+			}
+		}
+	}
+	// ---- the dot and the bracket spelling of a key agree, whatever Go type the map's keys and the key have ---------------
+	if c.Shard == 7%c.NShards && c.Begin("key-spellings over key types") {
+		maps := map[string]any{"string keys": map[string]any{"k": "v1", "size": "s1", "a b": "v2"}, "typed values": map[string]string{"k": "v1", "size": "s1", "a b": "v2"},
+			"named string keys": map[gen.NTitle]any{"k": "v1", "size": "s1", "a b": "v2"}, "named keys and values": map[gen.NTitle]gen.NTitle{"k": "v1", "size": "s1", "a b": "v2"},
+			"interface keys": map[any]any{"k": "v1", "size": "s1", "a b": "v2", 1: "one"}, "named map type": gen.NDict{"k": "v1", "size": "s1", "a b": "v2"},
+			"ordered map": yaml.MapSlice{{Key: "k", Value: "v1"}, {Key: "size", Value: "s1"}, {Key: "a b", Value: "v2"}}, "drop of map": gen.DropV{X: map[string]any{"k": "v1", "size": "s1", "a b": "v2"}},
+			"pointer to map": &map[string]any{"k": "v1", "size": "s1", "a b": "v2"}}
+		for name, mv := range maps {
+			for _, key := range []any{"k", gen.NTitle("k")} {
+				if _, isNamed := key.(gen.NTitle); isNamed && (name == "interface keys" || name == "ordered map") {
+					continue // an interface-keyed map holds the string "k": whether a key of another Go type finds it is not stated
+				}
+				b := map[string]any{"m": mv, "h": map[string]any{"m": mv}, "key": key, "sp": "a b"}
+				expectOut(c, e, "{{ m.k }}|{{ m['k'] }}|{{ m[\"k\"] }}|{{ m[key] }}|{{ h.m.k }}|{{ h.m[key] }}|{{ m['a b'] }}|{{ m[sp] }}|{{ m.size }}|{{ m['size'] }}|{{ m.zz }}{{ m['zz'] }}", b,
+					"v1|v1|v1|v1|v1|v1|v2|v2|s1|s1|", "key-spellings", "m.k, m['k'] and m[key] name the same entry, whatever the Go types of the map's keys and of the key are", map[string]any{"map": name})
+				c.Obs("key_spelling_cases", 1)
+				c.Distinct("keyspell", name, fmt.Sprint(key))
 			}
 		}
 	}
